@@ -23,6 +23,11 @@ func Subs(prop string) []Sub { return table[prop] }
 func init() {
 	add("C01", Sub{Name: "C01/enum", Mode: "free", QuickS: 150, ThorS: 1500})
 	add("C14", Sub{Name: "C14/sched", Mode: "controlled", QuickS: 120, ThorS: 1500})
+	add("C02", Sub{Name: "C02/enum", Mode: "free", QuickS: 150, ThorS: 1500})
+	add("C03", Sub{Name: "C03/enum", Mode: "free", QuickS: 150, ThorS: 1500})
+	add("C04", Sub{Name: "C04/enum", Mode: "free", QuickS: 150, ThorS: 1500})
+	add("C05", Sub{Name: "C05/enum", Mode: "free", QuickS: 150, ThorS: 1500})
+	add("C06", Sub{Name: "C06/enum", Mode: "free", QuickS: 150, ThorS: 1500})
 	add("C07", Sub{Name: "C07/enum", Mode: "free", QuickS: 150, ThorS: 1500})
 	add("C11", Sub{Name: "C11/sched", Mode: "controlled", QuickS: 100, ThorS: 1500})
 }
